@@ -154,8 +154,18 @@ impl<'a> Interp<'a> {
         } else if let Some(x) = st.names.iter().find(|n| !names.contains(n)) {
             return Err(Fail::new("enum-delivers-unknown-name", format!("SFileEnumFiles({ms:?}) delivered {x:?}, which the Rust API does not list ({names:?})")));
         }
-        if let Some(i) = st.answers.iter().position(|a| !a) {
-            return Err(Fail::new("reentrant-hasfile-denies-listed-file", format!("inside the enumeration callback SFileHasFile({:?}) = false for a file being enumerated", st.names[i])));
+        // The existence answer given inside the callback must agree with the Rust API. (An enumerated
+        // name is not necessarily a findable one: archives without a listfile are enumerated under
+        // synthetic file_NNNNNNNN.dat names, for which "not found" is the right answer.)
+        for (i, a) in st.answers.iter().enumerate() {
+            let Some(name) = st.names.get(i) else { break };
+            let want = self.rust_find(v, name)?.is_some();
+            if *a != want {
+                return Err(Fail::new(
+                    "reentrant-hasfile-differs-from-rust-api",
+                    format!("inside the enumeration callback SFileHasFile({name:?}) = {a}, the Rust API says {want}"),
+                ));
+            }
         }
         Ok(())
     }
